@@ -9,7 +9,7 @@ Trace == ndJsonDeserialize(TraceFile)
 Install(st) ==
   /\ nobs' = st.nobs /\ parked' = st.parked /\ nref' = st.nref /\ refs' = st.refs /\ held' = st.held /\ wslot' = st.wslot
   /\ rslot' = st.rslot /\ ntok' = st.ntok /\ np' = st.np /\ pstat' = st.pstat /\ gmark' = st.gmark /\ nin' = st.nin
-  /\ ack' = st.ack /\ vcred' = st.vcred /\ residue' = st.residue
+  /\ ack' = st.ack /\ vcred' = st.vcred /\ icall' = st.icall /\ residue' = st.residue
   /\ UNCHANGED steps
 
 PInit == Init /\ l = 1
